@@ -10,7 +10,8 @@ definitions of `DefineUse.analyze(func)` and hands it to `SubstVar.apply`.  Mech
   the same for the whole run:     every definition the pass selects is stable                (post safe)
 
 ASSUMED (trusted, abstract interface): DefineUse.analyze returns the analysis of the function (ghost field
-func.def_use, stand-in spec.c07.DUModel); SubstVar.apply returns some FuncDef (its rewriting rule is O2,
+func.def_use, stand-in spec.c07.DUModel, shape spec.c07.du_wellformed incl. R0-R2: every reaching definition of a name
+is a member of name_to_defs[name]); SubstVar.apply returns some FuncDef (its rewriting rule is O2,
 contracts/c07_subst.py); SyntaxCheck.check may reject.
 """
 from speclib import *
@@ -61,9 +62,15 @@ class CopyPropagate_apply_with_status(Contract):
     native_universe = 'spec.c07_ref:key_universe'
     native_demo = 'spec.c07_ref:demo'
     native_stubs = {'fpy2.analysis.define_use:DefineUse.analyze': 'spec.c07_ref:stub_analyze'}
-    options = {'local_types': {'prop': 'dict[Key[Definition], Key[Expr]]'}, 'key_attrs': 'spec.c07:KEY_ATTRS'}
+    options = {'local_types': {'prop': 'dict[Key[Definition], Key[Expr]]'}, 'key_attrs': 'spec.c07:KEY_ATTRS',
+               'feas_ms': 40}     # quantified facts: a satisfiable feasibility check only ever times out (unknown = feasible)
     note = ('verified: the loop over def_use.defs (symbolic length) with invariant inv0; reaching definitions are '
-            'uninterpreted (spec.c07.reach_use / reach_site)')
+            'uninterpreted (spec.c07.reach_use / reach_site).  The pass skips a copy x = y when y has more than one '
+            'definition (len(name_to_defs[y]) > 1); `stable` follows from that test under the ASSUMED well-formedness of the '
+            'analysis (spec.c07.du_wellformed R0-R2): defs lists every definition once, and every reaching definition of a '
+            'name -- at the copy and at every use of the copy -- exists and is a member of name_to_defs[name]; hence a name with '
+            'at most one definition has the same reaching definition wherever it is defined.  R0-R2 are checked natively on '
+            'sample programs by tools/c07_wellformed.py, never verified.')
 
     def inv0(self, func, names, prop, def_use, done):
         du = func.def_use
@@ -77,6 +84,10 @@ class CopyPropagate_apply_with_status(Contract):
             'rhs': forall_keys('Definition', lambda k: implies(k in prop, map_val(prop, k) == copy_rhs(k))),
             # ... and only when the copied-from variable has the same reaching definition at every rewritten use
             'stable': forall_keys('Definition', lambda k: implies(k in prop, stable(func, k))),
+            # `selected` describes exactly what the pass rewrites (so that `safe` cannot hold vacuously)
+            'only_selected': forall_keys('Definition', lambda k: implies(k in prop, (k in du.uses) and selected(func, names, k))),
+            'all_selected': forall_ints(lambda i: implies(0 <= i and i < done and selected(func, names, seq_at(du.defs, i)),
+                                                          seq_at(du.defs, i) in prop)),
             # every definition the pass selects among the first `done` is stable
             'safe': forall_ints(lambda i: implies(0 <= i and i < done and selected(func, names, seq_at(du.defs, i)),
                                                   stable(func, seq_at(du.defs, i)))),
@@ -88,6 +99,8 @@ class CopyPropagate_apply_with_status(Contract):
         n = seq_len(du.defs)
         return {
             'unchanged': implies(not changed, same_obj(f2, func)),
+            # the pass only reports a change when it rewrote a selected (hence stable) copy
+            'changed_only_if_selected': implies(changed, not forall_keys('Definition', lambda k: not ((k in du.uses) and selected(func, names, k)))),
             'safe': implies(changed, forall_ints(lambda i: implies(0 <= i and i < n and selected(func, names, seq_at(du.defs, i)),
                                                                   stable(func, seq_at(du.defs, i))))),
         }
